@@ -34,12 +34,16 @@ def run(tier, ev):
     ev.assumptions += ["small-scope: labels, depth and deviation bounds as stated", "CPython dict/set semantics"]
     sp = specs(tier)
     v = histcheck.run_specs(PROP, "c01", sp, ev)
+    v = list(v) + histcheck.nan_histories(PROP, "c01", "Hypergraph", [oracles.undirected_incidence], ev, depth=2 if tier == "quick" else 3)
     ev.sample({"history": ["xgi.Hypergraph()", "H.add_edge([1, 2])", "H.remove_node(1, remove_empty=False)",
                            "H.add_edges_from([[1, 2], [3, None]])"]})
     return v
 
 
 def replay(case):
+    if case.get("kind") == "nan-history":
+        r = histcheck.run_nan_history(case["cls"], case["ops"], [oracles.undirected_incidence])
+        return [f"{r[0]}: {r[1]}"] if r else []
     tier = "thorough"
     for s in specs(tier):
         if s.name == case["spec"]:
